@@ -59,6 +59,9 @@ var c14Hostile = []string{
 	`func named(a, b) {if a > b {return a - b}; a * b + 1.0}`,
 	`lam = (x, y) => x + y * 2.0; lam1 = x => x || false; lam0 = () => 1.0; lamr = () => {return 3}`,
 	`lamm = x => {{"a": 1, "b": 2}[x]}; lamd = (a, b) => {{"p": a}.p + b}; lamm2 = () => {{"a": 1}}; lamn = a => (b => a + b); lams = x => {{"a": [1, 2, 3]}.a[0:x]}; lamq = x => {{1: 2}[1] == x}`,
+	`func fal(a) {a + 1}; gal = fal; hal = gal`,
+	`bigs = "x" * 70000; zlast = 7`,
+	`gx = 1; func zz_setgx() {gx = 5}`,
 	`func vari(a, ..) {len(..) + a}`,
 	`func usesglobals(n) {n + imax % 7 + len(s5)}`,
 	`func strs() {"q\"uote" + "\x01\xff" + "tab\t"}`,
@@ -290,6 +293,9 @@ func (p c14) autoCycle(c *fw.Ctx, build []string) (kind, detail string) {
 	opts.AutoLoad, opts.AutoSave = true, true
 	opts.MaxValueLen = 4000
 	src := strings.Join(build, "\n")
+	if strings.Contains(src, "70000") {
+		opts.MaxValueLen = 0 // no limit: lines longer than a bufio.Scanner's default token size
+	}
 	_, errs, _ := repl.EvalStringWithOption(context.Background(), opts, src)
 	if len(errs) > 0 {
 		return "", "" // the environment itself does not evaluate cleanly in one go: not a case
@@ -303,10 +309,22 @@ func (p c14) autoCycle(c *fw.Ctx, build []string) (kind, detail string) {
 	if len(names) == 0 {
 		return "", ""
 	}
-	res, errs, _ := repl.EvalStringWithOption(context.Background(), opts, "zz_probe = 1; del(zz_probe)")
+	second2 := "zz_probe = 1; del(zz_probe)"
+	setter := strings.Contains(string(first), "func zz_setgx(")
+	if setter {
+		second2 = "zz_setgx()" // the only change of this session is a global assigned from inside a function
+	}
+	res, errs, _ := repl.EvalStringWithOption(context.Background(), opts, second2)
 	_ = res
 	if len(errs) > 0 {
 		return "autoload-error", fmt.Sprintf("evaluating after auto-load failed: %v", errs)
+	}
+	if setter {
+		saved, _ := os.ReadFile(".gr")
+		if !strings.Contains(string(saved), "\ngx=5\n") {
+			return "autosave-skipped", "a session whose only change is a global assigned from inside a function did not save it: " + clip(string(saved))
+		}
+		return "", ""
 	}
 	second, err := os.ReadFile(".gr")
 	if err != nil {
